@@ -56,11 +56,13 @@ def run(ctx):
         seen.add(name)
         R.entries += 1
         R.kinds[sp["kind"]] = R.kinds.get(sp["kind"], 0) + 1
+        import inline
+        b = inline.bools_threaded(crate, b)      # `if matches!(field, FieldState::Missing)` reads like `if let` / `is_missing()`
         v = View(b)
         bs = BodySites(v)
         cl = {}
         for cb in closures_of(crate, b):
-            cv = View(cb)
+            cv = View(inline.bools_threaded(crate, cb))
             cl[cb.path] = (cv, BodySites(cv))
         sk = skeleton.extract(v, bs, cl)
         check_entry(R, b, v, bs, sk, sp, cl)
